@@ -47,6 +47,10 @@ func flatStructType(r *vlib.R, tagged bool) reflect.Type {
 	fs := make([]reflect.StructField, n)
 	for i := range fs {
 		fs[i] = reflect.StructField{Name: fmt.Sprintf("Fld%c%d", 'A'+i, i), Type: scalarTypes[r.Intn(len(scalarTypes))]}
+		if r.Chance(0.25) {
+			// an optional field inside the flat struct (nil <-> tombstone point with the field's key)
+			fs[i].Type = reflect.PointerTo(fs[i].Type)
+		}
 		if tagged && r.Chance(0.5) {
 			fs[i].Tag = reflect.StructTag(fmt.Sprintf(`point:"k%d"`, i))
 		}
@@ -186,9 +190,22 @@ func mapKey(r *vlib.R) string {
 func genFlatStruct(r *vlib.R, t reflect.Type) reflect.Value {
 	v := reflect.New(t).Elem()
 	for i := 0; i < t.NumField(); i++ {
-		v.Field(i).Set(genScalar(r, t.Field(i).Type))
+		v.Field(i).Set(genFlatField(r, t.Field(i).Type))
 	}
 	return v
+}
+
+// genFlatField generates a field of a flat struct: a scalar or an optional scalar.
+func genFlatField(r *vlib.R, t reflect.Type) reflect.Value {
+	if t.Kind() == reflect.Pointer {
+		if r.Chance(0.4) {
+			return reflect.Zero(t)
+		}
+		p := reflect.New(t.Elem())
+		p.Elem().Set(genScalar(r, t.Elem()))
+		return p
+	}
+	return genScalar(r, t)
 }
 
 // genShapeValue generates a value of a field type.
@@ -300,6 +317,11 @@ func eqValM(a, b reflect.Value, path string, bits bool) string {
 			return fmt.Sprintf("%s: %v(%x) != %v(%x)", path, a.Float(), math.Float64bits(a.Float()), b.Float(), math.Float64bits(b.Float()))
 		}
 	case reflect.Pointer:
+		// a struct all of whose fields are optional and nil has no representation of its own: it
+		// encodes to tombstone points only, exactly like a nil pointer to that struct
+		if nilLike(a) && nilLike(b) {
+			return ""
+		}
 		if a.IsNil() != b.IsNil() {
 			return fmt.Sprintf("%s: nil=%v vs nil=%v", path, a.IsNil(), b.IsNil())
 		}
@@ -341,6 +363,23 @@ func eqValM(a, b reflect.Value, path string, bits bool) string {
 		}
 	}
 	return ""
+}
+
+// nilLike: a nil pointer, or a pointer to a struct whose fields are all nil pointers.
+func nilLike(p reflect.Value) bool {
+	if p.IsNil() {
+		return true
+	}
+	e := p.Elem()
+	if e.Kind() != reflect.Struct || e.NumField() == 0 {
+		return false
+	}
+	for i := 0; i < e.NumField(); i++ {
+		if e.Field(i).Kind() != reflect.Pointer || !e.Field(i).IsNil() {
+			return false
+		}
+	}
+	return true
 }
 
 // deepCopy copies a value so that later mutation of the original is visible.
